@@ -1910,6 +1910,19 @@ struct Gen {
     }
   }
 
+  // immediates passed directly as invoke arguments (InvokeNode::set_arg(i, Imm)): boundary values of every width
+  i64 gen_arg_imm() {
+    static const u64 kB[] = { 0, 1, ~0ull, 0x7F, 0x80, 0xFF, 0x7FFF, 0x8000, 0xFFFF, 0x7FFFFFFFull, 0x80000000ull, 0xFFFFFFFFull, 0x100000000ull,
+                              0x7FFFFFFFFFFFFFFFull, 0x8000000000000000ull, 0xFFFFFFFF80000000ull, 0xFFFFFFFF7FFFFFFFull, 0xFFFFFFFFull - 1, 0x80000001ull,
+                              0xC0000000ull, 0xFFFF0000ull };
+    const int n = (int)(sizeof(kB) / sizeof(kB[0]));
+    int k = (int)r.below(n + 6);
+    if (k < n) return (i64)kB[k];
+    if (k < n + 2) return (i64)(r.next() & 0xFFFFFFFFull);          // 32-bit pattern, zero-extended
+    if (k < n + 3) return (i64)(int32_t)r.next();                     // 32-bit pattern, sign-extended
+    return (i64)r.next();
+  }
+
   bool gen_call() {
     Op o; o.opc = O_CALL;
     bool haveD = pick(KIND_D, 8) >= 0;
@@ -1919,18 +1932,21 @@ struct Gen {
       const CalleeSig& sg = g_sigs[id];
       bool ok = true;
       o.args.clear();
+      int nd_seen = 0;
       for (int k = 0; k < sg.n && ok; k++) {
         if (sg.kind[k] == AK_F64) {
+          // an immediate is accepted for a floating-point argument only in a stack position (bit pattern)
+          bool on_stack = x32 || (!a64 && nd_seen >= 8);
+          nd_seen++;
+          if (on_stack && (!haveD || r.chance(1, 3))) { o.args.push_back(SI(gen_arg_imm())); continue; }
           if (!haveD) { ok = false; break; }
           o.args.push_back(SR(pick(KIND_D, 8)));
         }
         else {
           int aw = sg.kind[k] == AK_U8 ? 1 : sg.kind[k] == AK_U16 ? 2 : sg.kind[k] == AK_U32 ? 4 : 8;
           int v = (x32 && aw == 8) ? -1 : pickG(aw);
-          if (v < 0 || r.chance(1, 4)) {
-            i64 imm = gen_imm(aw);
-            if (aw == 8 && r.chance(1, 2)) imm = (i64)r.next();
-            o.args.push_back(SI(imm));
+          if (v < 0 || r.chance(1, 3)) {
+            o.args.push_back(SI(gen_arg_imm()));
           }
           else o.args.push_back(SR(v));
         }
@@ -4138,6 +4154,7 @@ static const ProbeDef kProbes[] = {
   { "vpternlog-merge-masked", AV_TERN_MASKED, true, "vpternlogd v{k},v,v,0xFF / 0x00 under merge-masking is treated as write-only although the masked-off lanes keep the old value" },
   { "same-reg-hint-different-views", AV_HINT_VIEWS, false, "xchg/xor between AL and AH views of one virtual register gets the same-register hint of xchg r,r / xor r,r" },
   { "call-stack-area-max-over-invokes", 0, false, "the frame's call-stack area must cover the largest stack-argument block of ALL invokes, not the one of the last invoke: a big call followed by a small one overwrites spill slots / new_stack() memory" },
+  { "immediate-stack-argument", 0, false, "immediate invoke arguments (InvokeNode::set_arg(i, Imm)) must arrive unchanged in register and stack positions for every boundary value" },
   { "unreachable-predecessor", 0x80000000u, false, "an unreachable block that flows into a reachable loop crashes the liveness analysis" },
 };
 static const int kNProbes = sizeof(kProbes) / sizeof(kProbes[0]);
@@ -4245,6 +4262,32 @@ static Program build_probe(const std::string& name) {
     Op q; q.opc = O_VALU; q.sub = VA_PAND; q.w = 16; q.d = y2; q.a = y2; q.s = SR(y2); b.ops().push_back(q);
     b.call0();
     b.finish(-1);
+    return b.P;
+  }
+  if (name == "immediate-stack-argument") {
+    ProbeBuilder b;
+    static const u64 kB[] = { 0, 1, ~0ull, 0x7F, 0x80, 0xFF, 0x7FFF, 0x8000, 0xFFFF, 0x7FFFFFFFull, 0x80000000ull, 0xFFFFFFFFull, 0x100000000ull,
+                              0x7FFFFFFFFFFFFFFFull, 0x8000000000000000ull, 0xFFFFFFFF80000000ull, 0xFFFFFFFF7FFFFFFFull, 0xDEADBEEFull };
+    const int nb = (int)(sizeof(kB) / sizeof(kB[0]));
+    int v = b.val(KIND_G, 8);
+    b.load(v, 0);
+    // 14 integer arguments (6 in registers, 8 on the stack) and the 14-integer + 12-double callee (4 doubles on the stack); every boundary value visits every position
+    static const int ids[] = { NCALLEE_OLD, NCALLEE_OLD + 1, NCALLEE_OLD + 7 };
+    for (int id : ids) {
+      int nd_seen = 0;
+      std::vector<int> imm_ok(g_sigs[id].n, 1);
+      for (int k = 0; k < g_sigs[id].n; k++) if (g_sigs[id].kind[k] == AK_F64) { imm_ok[k] = nd_seen >= 8; nd_seen++; }
+      int dval = -1;
+      for (int j = 0; j < nb; j++) {
+        Op o; o.opc = O_CALL; o.imm = id;
+        for (int k = 0; k < g_sigs[id].n; k++) {
+          if (imm_ok[k]) o.args.push_back(SI((i64)kB[(k + j) % nb]));
+          else { if (dval < 0) { dval = b.val(KIND_D, 8); b.load(dval, 16); } o.args.push_back(SR(dval)); }
+        }
+        b.ops().push_back(o);
+      }
+    }
+    b.finish(v);
     return b.P;
   }
   if (name == "call-stack-area-max-over-invokes") {
